@@ -646,6 +646,12 @@ fn plan_for(spec: &HeadSpec, b: &Built, tier: Tier) -> Plan {
             u.extend([8191, 8192]);
             Plan { offsets, d, uniforms: u }
         }
+        // more than 1 MiB: the contiguous delivery, every single cut next to a field-line end, a few uniform sizes
+        "huge" => Plan {
+            offsets: near(b.line_ends.iter().copied(), 1, 1, last),
+            d: 1,
+            uniforms: vec![8191, 8192, 65536],
+        },
         g => panic!("no plan for group {g}"),
     }
 }
@@ -919,6 +925,33 @@ pub fn space() -> Vec<HeadSpec> {
                     request_kind: 0,
         });
     }
+    // (E2) Transfer-Encoding values the body layers do not act on, or only partly: hidden all the same
+    let odd_te: Vec<(Vec<FieldSpec>, Vec<u8>)> = vec![
+        (vec![fld("Transfer-Encoding", 1, b"identity", 0), fld("X-A", 1, b"1", 0)], b"xyz".to_vec()),
+        (vec![fld("X-A", 1, b"1", 0), fld("Transfer-Encoding", 1, b"compress", 0)], b"xyz".to_vec()),
+        (vec![fld("Transfer-Encoding", 1, b"x-frob", 0)], b"xyz".to_vec()),
+        (vec![fld("Transfer-Encoding", 1, b"gzip;q=1", 0), fld("Content-Type", 1, b"text/plain", 0)], b"xyz".to_vec()),
+        (vec![fld("Transfer-Encoding", 1, b"", 0), fld("X-A", 1, b"1", 0)], b"xyz".to_vec()),
+        (vec![fld("Transfer-Encoding", 1, b"chunked,", 0), fld("X-A", 1, b"1", 0)], b"0\r\n\r\n".to_vec()),
+        (vec![fld("Transfer-Encoding", 1, b"x-frob, chunked", 0)], b"0\r\n\r\n".to_vec()),
+        (vec![fld("Transfer-Encoding", 1, b"x-frob", 0), fld("X-A", 1, b"1", 0), fld("transfer-encoding", 1, b"chunked", 0)], b"0\r\n\r\n".to_vec()),
+        (vec![fld("Transfer-Encoding", 1, b"chunked", 0), fld("Transfer-Encoding", 1, b"\xe9", 0), fld("X-A", 1, b"1", 0)], b"0\r\n\r\n".to_vec()),
+        (vec![fld("Transfer-Encoding", 1, b"identity", 0), fld("Content-Length", 1, b"3", 0)], b"xyz".to_vec()),
+    ];
+    for (fields, body) in odd_te {
+        v.push(HeadSpec {
+            group: "te".into(),
+            version: "HTTP/1.1".into(),
+            code: 200,
+            reason: Reason::Text(b"OK".to_vec()),
+            fields,
+            body,
+            max_headers: None,
+            reject: false,
+            head_method: false,
+            request_kind: 0,
+        });
+    }
     // (F) a fold directly after the colon / a value ending in a blank continuation line: the LF
     // becomes a space first, then surrounding spaces are stripped
     let edge = |name: &str, pre: &str, val: &[u8], post: &str| FieldSpec {
@@ -1062,6 +1095,23 @@ pub fn space() -> Vec<HeadSpec> {
             ]));
         }
     }
+    // a head of more than 1 MiB that stays within every stated limit: 70 field lines of 16000 bytes
+    let fields: Vec<FieldSpec> = (0..70usize)
+        .map(|i| {
+            let name = format!("H{}", i % 35);
+            FieldSpec {
+                pre: 1,
+                val: ValSpec::Pattern { len: 16000 - name.len() - 4, shift: i + 1, lf: false },
+                post: 0,
+                name,
+                pre_raw: None,
+                post_raw: None,
+            }
+        })
+        .collect();
+    let mut huge = size_spec(fields);
+    huge.group = "huge".into();
+    v.push(huge);
     // 60 field lines of exactly 200 bytes, 20 distinct names (three values each)
     let fields: Vec<FieldSpec> = (0..60usize)
         .map(|i| {
@@ -1183,7 +1233,7 @@ fn run_head(spec: &HeadSpec, tier: Tier) -> HeadResult {
 
 fn cost_estimate(spec: &HeadSpec) -> u64 {
     match spec.group.as_str() {
-        "size" => 1_000_000_000,
+        "size" | "huge" => 1_000_000_000,
         "count" if spec.fields.len() > 50 => 100_000_000,
         _ => {
             let n: u64 = 20 + spec.fields.iter().map(|f| f.name.len() as u64 + 8).sum::<u64>();
@@ -1276,6 +1326,8 @@ pub fn c04(ctx: &Ctx) -> Report {
             "count": "max_headers in {0,1,2,100} x field lines {m-1, m} accepted and m+1 rejected, distinct names and one repeated name",
             "te": "every list of length 1..=3 over 12 fields (Transfer-Encoding in two spellings, Content-Length, 8 other hop-by-hop/entity names, X-A) with at most one framing field",
             "size": "one 16000-byte value (with and without bare-LF continuations) between two case-variant fields; 60 field lines of 200 bytes over 20 names",
+            "huge": "70 field lines of 16000 bytes over 35 names (1.1 MB, within max_headers and the line limit): contiguous, every single cut within 1 of a field-line end, uniform 8191/8192/65536",
+            "te-odd": "Transfer-Encoding: identity / compress / x-frob / gzip;q=1 / empty / 'chunked,' / 'x-frob, chunked' / an unknown coding on a second line / an obs-text second line / identity next to Content-Length, with other fields (part of group te)",
         }),
     );
     rep.set(
